@@ -111,6 +111,14 @@ def run(chk):
                     scaling_events(chk, batch, rng, name, 'live-' + how, live, x, c, dt)
             for name in zoo.FUNCTIONS:
                 scaling_events(chk, batch, rng, name, 'function', lambda d, nm=name: zoo.functional(nm, d, nfft), x, c, dt)
+            # a long record (past 4096 samples, the library's default NFFT; past 8192 in the thorough tier): class and function form
+            if rep == 0 or (rep == 1 and chk.tier != 'quick'):
+                nl = 4200 if rep == 0 else 8300
+                xl = zoo.signal(rng, nl, cplx, kind='arma')
+                for name in zoo.CLASSES:
+                    scaling_events(chk, batch, rng, name, 'class', lambda d, nm=name: zoo.outputs(nm, zoo.build(nm, d, nl + 1)), xl, c, dt)
+                for name in zoo.FUNCTIONS:
+                    scaling_events(chk, batch, rng, name, 'function', lambda d, nm=name: zoo.functional(nm, d, nl + 1), xl, c, dt)
             # decisions: subspace dimension chosen by AIC / MDL, Burg order chosen by a criterion
             import spectrum as sp
             from spectrum.eigenfre import eigen
@@ -156,6 +164,8 @@ def run(chk):
                  lambda ev, cl: '%s (%s form, %s data) output %s: clause "%s" fails: %s'
                  % (ev.get('est', ev.get('what')), ev.get('form', '-'), ev['dt'], ev.get('key', ''), cl, ev))
     chk.sample('obs-event', batch.events[3], 1)
+    from .. import carrier
+    carrier.run_for(chk, 'C03')      # Carrier.tla: an amplitude is a value, whatever container carries the samples
 
 
 def replay_case(chk, sig, case):
